@@ -158,9 +158,8 @@ def _space_uses(repo, col, cl: Classifier):
                       "row labels (.index) of the table", f"stores {v.short()}", node=s.node)
 
 
-def _pairing(repo, col):
+def _pairing(repo, col, R="R-C08-pairing"):
     """Values and row indices of external inputs are extended in the same order."""
-    R = "R-C08-pairing"
     from . import c19
     c19.pair_delete(repo, col, R)
     for file_fn in (("jaxley/integrate.py", "add_stimuli"), ("jaxley/integrate.py", "add_clamps")):
